@@ -639,7 +639,18 @@ fn part_histories(ctx: &mut Ctx, rng: &mut Rng, idx: &mut usize) {
             if !ctx.tier_thorough && cfg.fs == Fs::Cpm3 && r.chance(60) { ctx.out.count("hist:skipped-quick"); continue; }
             let nops = if ctx.tier_thorough { if nibble { 20 } else { 40 } } else if nibble { 6 } else { 12 };
             let big = *r.pick(&[3000usize, 6000, 9000]);
-            let ops = gen_history(cfg.fs, &mut r, nops + round, big);
+            let mut ops = gen_history(cfg.fs, &mut r, nops + round, big);
+            // pre-soil (half of the histories): store and delete one large non-zero file first, so that the sectors the
+            // history allocates afterwards hold stale bytes — a container that pads a short write differently from the
+            // others (the tail of a file's last sector) then differs at sector level although every file reads the same
+            if r.chance(50) {
+                let cap: usize = match cfg.kind_name.as_str() { n if n.starts_with("a2") && n.contains("13") => 100_000, n if n.starts_with("a2") => 110_000, _ => 120_000 };
+                let soil = fname(cfg.fs, 900);
+                let mut pre = vec![Op::Put(soil.clone(), cap, 0x5011 ^ me as u64), Op::Delete(soil)];
+                pre.append(&mut ops);
+                ops = pre;
+                ctx.out.count("hist:pre-soil");
+            }
             let paths: Vec<String> = {
                 let mut p: Vec<String> = Vec::new();
                 for o in &ops { match o { Op::Put(x, _, _) => p.push(x.clone()),
